@@ -76,11 +76,12 @@ Proof.
   ev_step HR ev1 ev2; try reflexivity; try (cbn in H; fuel_absurd); apply IH; assumption.
 Qed.
 
-Lemma dsl_for_keys_mono : forall keys fr st k v l b,
-  dsl_nf (fst (dsl_for_keys ev1 fr st k v l keys b)) -> dsl_for_keys ev2 fr st k v l keys b = dsl_for_keys ev1 fr st k v l keys b.
+Lemma dsl_for_keys_mono : forall keys fr st k v l isns b,
+  dsl_nf (fst (dsl_for_keys ev1 fr st k v l isns keys b)) -> dsl_for_keys ev2 fr st k v l isns keys b = dsl_for_keys ev1 fr st k v l isns keys b.
 Proof.
-  induction keys as [|key rest IH]; intros fr st k v l b H; [reflexivity|].
+  induction keys as [|key rest IH]; intros fr st k v l isns b H; [reflexivity|].
   cbn [dsl_for_keys] in *. cbv zeta in *.
+  destruct (dsl_for_fetch isns (dsl_set_local fr st k (DvStr key)) l key); [|reflexivity].
   ev_step HR ev1 ev2; try reflexivity; try (cbn in H; fuel_absurd); apply IH; assumption.
 Qed.
 
@@ -290,9 +291,9 @@ Ltac crush2 H L1 L2 Hle :=
     | match goal with |- context [dsl_for_arr ev2 L2 ?fr ?st ?k ?l ?i ?b] =>
         let E := fresh "E" in pose proof (dsl_for_arr_mono L1 L2 fr st k l i b Hle) as E;
         res_cases (dsl_for_arr ev1 L1 fr st k l i b); cbn [fst] in E; fin_step E H end
-    | match goal with |- context [dsl_for_keys ev2 ?fr ?st ?k ?v ?l ?ks ?b] =>
-        let E := fresh "E" in pose proof (dsl_for_keys_mono ks fr st k v l b) as E;
-        res_cases (dsl_for_keys ev1 fr st k v l ks b); cbn [fst] in E; fin_step E H end
+    | match goal with |- context [dsl_for_keys ev2 ?fr ?st ?k ?v ?l ?ns ?ks ?b] =>
+        let E := fresh "E" in pose proof (dsl_for_keys_mono ks fr st k v l ns b) as E;
+        res_cases (dsl_for_keys ev1 fr st k v l ns ks b); cbn [fst] in E; fin_step E H end
     | match goal with |- context [dsl_invoke ev2 L2 ?st ?f ?self ?args] =>
         let E := fresh "E" in pose proof (dsl_invoke_mono L1 L2 st f self args Hle) as E;
         res_cases (dsl_invoke ev1 L1 st f self args); cbn [fst] in E; fin_step E H end
